@@ -964,8 +964,10 @@ class XMLSchemaBase(XsdValidator, ElementPathMixin[Union[SchemaType, XsdElement]
         elif path[-1] == '*':
             try:
                 xsd_element = self.find(path[:-1] + tag, namespaces)
-            except ElementPathError:
-                xsd_element = None  # a tag not usable in a path (e.g. invalid namespace URI)
+            except (ElementPathError, AssertionError):
+                # A tag not usable in a path (e.g. an invalid namespace URI, also
+                # refused by an assertion of the XPath parser if it starts with a digit)
+                xsd_element = None
             if isinstance(xsd_element, XsdElement) and xsd_element.name == tag:
                 return xsd_element
             else:
@@ -1372,7 +1374,7 @@ class XMLSchemaBase(XsdValidator, ElementPathMixin[Union[SchemaType, XsdElement]
                         try:
                             xsd_ancestors = cast(list[XsdElement],
                                                  schema.findall(path_, namespaces)[1:])
-                        except ElementPathError:
+                        except (ElementPathError, AssertionError):
                             xsd_ancestors = []  # names of the XML data not usable in a path
 
                         # Clear identity constraints counters
